@@ -105,8 +105,23 @@ int main(int argc, char **argv)
 			p = 0;
 			for (i = 0; i < nl; i++) s[p++] = (p > 0 && s[p - 1] != '.' && rnd() % 9 == 0) ? '.' : "abcxyzABC019-*"[rnd() % 14];
 			s[p] = 0;
-			switch (rnd() % 4) {
+			switch (rnd() % 6) {
 			case 0: break;					/* unrelated */
+			case 4:						/* the domain occurs twice: <prefix>.<domain>.<domain> */
+			case 5: {					/* ... or its text starts a longer label in front: <domain>xy.<domain> */
+				const char *b = d + (wild ? 2 : 0);
+				int two = (rnd() % 3 == 0) && strlen(b) < 90;
+				if (p > 60) p = 60;
+				if (p && s[p - 1] != '.') s[p++] = '.';
+				s[p] = 0;
+				strcat(s, b);
+				if (rnd() % 2) strcat(s, rnd() % 2 ? "xy" : "munity");
+				strcat(s, ".");
+				if (two) { strcat(s, b); strcat(s, "."); }
+				if (wild) strcat(s, "lab.");
+				strcat(s, b);
+				break;
+			}
 			case 1: if (p && s[p - 1] != '.') s[p++] = '.'; s[p] = 0; strcat(s, wild ? "lab" : ""); if (wild) strcat(s, "."); strcat(s, d + (wild ? 2 : 0)); break;
 			case 2: strcat(s, d + (wild ? 2 : 0)); break;		/* suffix without boundary */
 			default: strcpy(s, d + (wild ? 2 : 0)); break;		/* equals the domain (body) */
